@@ -89,18 +89,44 @@ def d6_2(ctx):
     rl = reads(ctx, ip)[2]
     dec_ok = rl == [("read", 4)] and any(isinstance(r, ast.Return) and isinstance(r.value, ast.Attribute) and r.value.attr in ("exploded", "compressed") for r in walk(d))
     ctx.check(enc_ok and dec_ok, ckey(ip.key, "symmetry"), d or ip.node, "IPv4Address(value).packed (4 bytes) <-> IPv4Address(read 4).exploded", "IPAddress does not write/read the same 4 packed bytes", read=rl)
-    # identity object post-processing is inverse on both sides
+    # identity object: what decode rewrites (names for ids, hex text for the serial) encode turns back - folded on a witness
+    # identity through both methods with the structure codec as a marker
+    from ..miniinterp import Obj, run_function
+
     mio = ctx.model.cls(f"{CT}:ModuleIdentityObject")
     e, d = mio.methods.get("_encode"), mio.methods.get("_decode")
-    dkeys = _postprocessed_keys(d)
-    ekeys = _postprocessed_keys(e)
-    ctx.check(dkeys == ekeys and dkeys, ckey(mio.key, "postprocess"), e or mio.node, f"decode and encode post-process the same fields {sorted(dkeys)}",
-              f"identity decode rewrites {sorted(dkeys)} but encode inverts {sorted(ekeys)}", decode=sorted(dkeys), encode=sorted(ekeys))
-    # serial: f"{x:08x}" <-> int.from_bytes(bytes.fromhex(s), "big")
-    fmt_ok = d is not None and any(isinstance(n, ast.FormattedValue) and n.format_spec is not None and "".join(x.value for x in n.format_spec.values if isinstance(x, ast.Constant)) == "08x" for n in walk(d))
-    inv_ok = e is not None and any(isinstance(n, ast.Call) and call_name(n) == "int.from_bytes" and len(n.args) == 2 and ctx.folder.eval(n.args[1], mio.module) == "big" and isinstance(n.args[0], ast.Call) and call_name(n.args[0]) == "bytes.fromhex" for n in walk(e)) or (
-        e is not None and any(isinstance(n, ast.Call) and call_name(n) == "int" and len(n.args) == 2 and ctx.folder.eval(n.args[1], mio.module) == 16 for n in walk(e)))
-    ctx.check(fmt_ok and inv_ok, ckey(mio.key, "serial"), e or mio.node, "serial: 08x text <-> big-endian hex parse", "serial number text form is not inverted by encode (08x vs fromhex/big)")
+    if e is None or d is None:
+        ctx.undecided(ckey(mio.key, "postprocess"), mio.node, "identity codec methods not found")
+    else:
+        vendors = ctx.folder.module_value(mio.module.name, "VENDORS")
+        ptypes = ctx.folder.module_value(mio.module.name, "PRODUCT_TYPES")
+        for label, raw in (("known ids", {"vendor": 1, "product_type": 14, "product_code": 55, "revision": {"major": 20, "minor": 11}, "status": b"\x30\x60", "serial": 0x00C0FFEE, "product_name": "1756-L61"}),
+                           ("serial with five significant hex digits", {"vendor": 1, "product_type": 14, "product_code": 1, "revision": {"major": 1, "minor": 1}, "status": b"\x00\x00", "serial": 0x00012345, "product_name": "y"}),
+                           ("serial with leading zero bytes", {"vendor": 1, "product_type": 12, "product_code": 1, "revision": {"major": 1, "minor": 1}, "status": b"\x00\x00", "serial": 0x0000012F, "product_name": "x"})):
+            seen = {}
+
+            def hook(call, env, it, raw=raw, seen=seen):
+                f_ = call.func
+                if isinstance(f_, ast.Attribute) and f_.attr in ("_decode", "_encode") and isinstance(f_.value, ast.Call) and call_name(f_.value) == "super":
+                    if f_.attr == "_decode":
+                        return dict(raw)
+                    seen["encoded"] = dict(it.ev(call.args[0], env))
+                    return b"<struct>"
+                return UNKNOWN
+
+            k1, dec_v = run_function(ctx, mio.module, d, {d.args.args[0].arg: Obj(), d.args.args[1].arg: b""}, call_hook=hook, deep=False)
+            key = ckey(mio.key, f"postprocess:{label}")
+            if k1 != "return" or not isinstance(dec_v, dict):
+                (ctx.undecided if k1 == "unknown" else ctx.violation)(key, d, f"identity decode on {label}: {k1} {dec_v!r}")
+                continue
+            given = dict(dec_v)
+            k2, enc_v = run_function(ctx, mio.module, e, {e.args.args[0].arg: Obj(), e.args.args[1].arg: dec_v}, call_hook=hook, deep=False)
+            if k2 == "unknown":
+                ctx.undecided(key, e, f"identity encode on {label}: {enc_v}")
+                continue
+            back = seen.get("encoded")
+            ctx.check(k2 == "return" and back == raw and dec_v == given, key, e, f"{label}: encode hands the structure codec the ids / serial that decode received, and leaves its argument alone",
+                      f"identity round trip on {label}: decode gives {given!r}; encode then hands the structure codec {back!r} (expected {raw!r}){'' if dec_v == given else ' and modifies the value it was given'}")
     _array_kinds(ctx)
 
 
@@ -126,68 +152,13 @@ def _postprocessed_keys(fn):
 
 
 def _array_kinds(ctx):
-    """Array: fixed (n elements), typed (prefix + n), unbounded (to the end) -- the three kinds agree between encode and decode."""
-    arr = ctx.model.cls(f"{DT}:Array.Array")
-    enc, dec = arr.methods.get("encode"), arr.methods.get("decode")
-    if enc is None or dec is None:
-        ctx.undecided(ckey(arr.key, "kinds"), arr.node, "encode/decode vanished")
-        return
-    # --- decode: the element loop bound
-    bound = None
-    for n in walk(dec):
-        if isinstance(n, ast.ListComp) and isinstance(n.elt, ast.Call) and attr_path(n.elt.func) == "cls.element_type.decode":
-            it = n.generators[0].iter
-            if isinstance(it, ast.Call) and call_name(it) == "range" and len(it.args) == 1:
-                bound = atom_name(it.args[0])
-    length_var = None
-    for n in walk(dec):
-        if isinstance(n, ast.Assign) and isinstance(n.value, ast.BoolOp) and isinstance(n.value.op, ast.Or) and atom_name(n.value.values[-1]) == "cls.length":
-            length_var = atom_name(n.targets[0])
-    # typed branch: <X>.decode(stream) assigned to a variable under a type test
-    typed = None
-    for n in walk(dec):
-        if isinstance(n, ast.If):
-            for st in n.body:
-                if isinstance(st, ast.Assign) and isinstance(st.value, ast.Call) and isinstance(st.value.func, ast.Attribute) and st.value.func.attr == "decode" and atom_name(st.value.func.value) == length_var:
-                    other = [s for s in n.orelse if isinstance(s, ast.Assign) and atom_name(s.targets[0]) == atom_name(st.targets[0])]
-                    typed = (n, atom_name(st.targets[0]), bool(other) and atom_name(other[0].value) == length_var)
-    if typed is None:
-        ctx.violation(ckey(arr.key + ".decode", "typed-length"), dec, "no branch decodes the element count from a length type: length-prefixed arrays cannot be decoded", length_var=length_var)
-        return
-    test, count_var, other_ok = typed
-    ctx.check(bound == count_var and other_ok, ckey(arr.key + ".decode", "loop-bound"), dec, f"element loop runs over the decoded/declared count `{count_var}`",
-              f"element loop is bounded by `{bound}` but the count read from the prefix is `{count_var}` (the decoded count never reaches the loop)", bound=bound, count=count_var)
-    accepts_class = _test_accepts_class(ctx, arr, test.test)
-    sites = _typed_length_sites(ctx)
-    ctx.check(accepts_class, ckey(arr.key + ".decode", "type-test"), test, "length-type test recognises DataType classes",
-              f"`{src(test.test)}` is false for a DataType *class*, but every typed-length construction site passes a class ({sites[:3]}): the prefix is never read", test=src(test.test), sites=sites)
-    # --- encode must write the prefix for the typed kind
-    prefix = None
-    for n in walk(enc):
-        if isinstance(n, ast.Call) and isinstance(n.func, ast.Attribute) and n.func.attr == "encode" and atom_name(n.func.value) in (length_var, "_length", "cls.length") and n.args:
-            p = getattr(n, "_parent", None)
-            in_return = False
-            while p is not None and p is not enc:
-                if isinstance(p, ast.Return):
-                    in_return = True
-                p = getattr(p, "_parent", None)
-            prefix = (n, in_return)
-    if prefix is None:
-        ctx.violation(ckey(arr.key + ".encode", "typed-length"), enc, "decode reads an element-count prefix for typed-length arrays but encode never writes one: decode(encode(v)) consumes element bytes as the count")
-    else:
-        n, in_ret = prefix
-        guard_ok = False
-        p = getattr(n, "_parent", None)
-        while p is not None and p is not enc:
-            if isinstance(p, ast.If) and _test_accepts_class(ctx, arr, p.test):
-                guard_ok = True
-            if isinstance(p, ast.IfExp) and _test_accepts_class(ctx, arr, p.test):
-                guard_ok = True
-            p = getattr(p, "_parent", None)
-        ctx.check(guard_ok, ckey(arr.key + ".encode", "typed-length"), n, "count prefix written with the length type under the same type test", "the count prefix is not written under a test that recognises the length type")
-    # unbounded
-    unb = any(isinstance(n, ast.If) and isinstance(n.test, ast.Compare) and atom_name(n.test.left) == length_var and isinstance(n.test.ops[0], ast.Is) and any(isinstance(r, ast.Call) and attr_path(r.func) == "cls._decode_all" for s in n.body for r in walk(s)) for n in walk(dec))  # (returned directly or bound first; what happens to the result is D6.12's witness)
-    ctx.check(unb, ckey(arr.key + ".decode", "unbounded"), dec, "length None decodes to the end of the buffer", "length None no longer selects _decode_all")
+    """The three kinds of array length (fixed n, a length type written / read as a count prefix, None = to the end of the
+    buffer), the per-call override and bit-string elements: decided by folding the generated Array class on witnesses
+    (D6.12).  An earlier form located the length-type branch and the element loop in `decode` itself and alarmed when the
+    count computation was extracted into a helper or the branches were flattened."""
+    from .driver import _array_rule
+
+    _array_rule(ctx)
 
 
 def _test_accepts_class(ctx, arr, test) -> bool:
@@ -223,83 +194,18 @@ def _typed_length_sites(ctx):
     return sites
 
 
-@rule(P, "D6.3", "T-UNIT", floor=5)
+@rule(P, "D6.3", "T-WITNESS", floor=5)
 def d6_3(ctx):
-    """The length prefix counts characters; the bytes read on decode must be prefix x character width of the class' encoding."""
-    sp = ctx.spec("cip_types")["encoding_char_width"]
-    strbase = ctx.model.cls(f"{DT}:StringDataType")
-    for c in datatype_classes(ctx):
-        if strbase not in c.mro() or c is strbase or c.module.name == PCCC:
-            continue
-        lt = ctx.folder.class_attr(c, "len_type")
-        if not isinstance(lt, ClassRef):
-            continue
-        enc = class_const(ctx, c, "encoding")
-        width = sp.get(str(enc).lower())
-        dd, dfn = effective(ctx, c, "_decode")
-        de, efn = effective(ctx, c, "_encode")
-        if dfn is None or efn is None:
-            continue
-        # writer: prefix counts len(<str value>)
-        lay = write_layout(ctx, c)[2]
-        fl = flatten(lay or [])
-        # unit of the written prefix: len(<str parameter>) counts characters, len(<its encoding>) counts bytes
-        write_unit = None
-        if fl and fl[0][0] == "lenof":
-            tgt = fl[0][3]
-            sparam = efn.args.args[1].arg if len(efn.args.args) > 1 else None
-            if tgt == sparam:
-                write_unit = "chars"
-            else:
-                for n in walk(efn):
-                    if isinstance(n, ast.Assign) and atom_name(n.targets[0]) == tgt:
-                        v = n.value
-                        while isinstance(v, ast.Subscript):
-                            v = v.value
-                        if isinstance(v, ast.Call) and isinstance(v.func, ast.Attribute) and v.func.attr == "encode" and atom_name(v.func.value) == sparam:
-                            write_unit = "bytes"
-                        elif isinstance(n.value, ast.Subscript) and atom_name(n.value.value) == sparam:
-                            write_unit = "chars"  # value = value[:n]
-                if tgt.startswith(f"{sparam}.encode("):
-                    write_unit = "bytes"
-        writes_chars = write_unit is not None
-        # reader: first decoded value is the count; the read size must be count*width
-        count_var, size_expr, slice_var = None, None, None
-        for n in walk(dfn):
-            if isinstance(n, ast.Assign) and isinstance(n.value, ast.Call) and attr_path(n.value.func) == "cls.len_type.decode" and count_var is None:
-                count_var = atom_name(n.targets[0])
-            if isinstance(n, ast.Call) and attr_path(n.func) in ("cls._stream_read",) and len(n.args) == 2:
-                size_expr = n.args[1]
-                par = getattr(n, "_parent", None)
-                if isinstance(par, ast.Subscript) and isinstance(par.slice, ast.Slice) and par.slice.upper is not None:
-                    slice_var = atom_name(par.slice.upper)
-        key = ckey(c.key, "unit")
-        if count_var is None or size_expr is None or width is None:
-            ctx.violation(key, dfn, f"{c.name}: cannot relate the length prefix to the bytes read (count {count_var}, size {size_expr and src(size_expr)}, encoding {enc!r})")
-            continue
-        L = lin(size_expr)
-        factor = None
-        if L is not None and set(L.terms) == {count_var} and L.const == 0:
-            factor = L.terms[count_var]
-        fixed_capacity = atom_name(size_expr) == "cls.size" and slice_var == count_var
-        if fixed_capacity:
-            factor = 1  # reads the whole capacity, keeps the first <count> *bytes*
-        need = width if write_unit == "chars" else 1
-        ctx.check(writes_chars and factor == need, key, dfn, f"prefix counts {write_unit}; decode reads prefix x {need} byte(s) ({enc})",
-                  f"{c.name}: encode ({de.name}._encode) writes a prefix counting {write_unit} of the {width}-byte encoding {enc!r}, but decode ({dd.name}._decode) reads prefix x {factor} bytes: decode(encode(s)) does not consume/return what was written",
-                  encoding=enc, char_width=width, prefix_unit=write_unit, bytes_per_count=factor, encoder=f"{de.name}._encode", decoder=f"{dd.name}._decode")
-    # STRINGN: count x size
-    c = ctx.model.cls(f"{DT}:STRINGN")
-    dfn = c.methods.get("_decode")
-    ok = False
-    if dfn is not None:
-        decs = [atom_name(n.targets[0]) for n in walk(dfn) if isinstance(n, ast.Assign) and isinstance(n.value, ast.Call) and attr_path(n.value.func) == "UINT.decode"]
-        for n in walk(dfn):
-            if isinstance(n, ast.Call) and attr_path(n.func) == "cls._stream_read" and len(n.args) == 2 and isinstance(n.args[1], ast.BinOp) and isinstance(n.args[1].op, ast.Mult):
-                ok = len(decs) == 2 and {atom_name(n.args[1].left), atom_name(n.args[1].right)} == set(decs)
-        enc_lookup = any(isinstance(n, ast.Subscript) and atom_name(n.value) == "cls.ENCODINGS" and decs and atom_name(n.slice) == decs[0] for n in walk(dfn))
-        ok = ok and enc_lookup
-    ctx.check(ok, ckey(c.key, "unit"), dfn or c.node, "reads char_count x char_size bytes and decodes with ENCODINGS[char_size]", "STRINGN does not read count x size bytes with the encoding of that size")
+    """The length prefix of a string counts characters and decode reads prefix x character width bytes (1 for the single-byte
+    encodings, 2 for STRING2, the per-value width for STRINGN); a fixed-capacity string reads its whole capacity and keeps
+    `prefix` characters.  Decided by folding the string codecs on witness values (D6.9, incl. two-character STRING2 / STRINGN
+    values whose byte count differs from the character count) and the generated fixed-capacity class (D6.14).  An earlier
+    form related the prefix variable to the size expression of `_stream_read` syntactically and alarmed when the read and the
+    slice were split into two statements."""
+    from .driver import _fixedstring_rule
+
+    d6_9(ctx)
+    _fixedstring_rule(ctx)
 
 
 @rule(P, "D6.4", "T-SIB", floor=10)
